@@ -68,3 +68,11 @@ Lemma final_erase_all_and_pad : forall s drop,
 Proof.
   intros s drop. split; [apply erase_all_inplace_is_erase_all|]. split; [intros c; apply erase_all_spec | intros len c; apply pad_spec].
 Qed.
+
+Lemma final_equal_less_icase : forall a b,
+  (equal_icase a b = true <-> to_lower a = to_lower b) /\
+  less_icase a b = (strcmp_sign (to_lower a) (to_lower b) =? -1)%Z /\
+  less_icase a b = (compare_icase a b =? -1)%Z.
+Proof.
+  intros a b. split; [apply equal_icase_spec|]. split; [apply less_icase_is_strcmp | apply less_icase_is_compare_icase].
+Qed.
